@@ -11,8 +11,7 @@
 -/
 import JRV.Model.JsonClassGate
 import JRV.Lemmas.JsonClass
-import JRV.Properties.C05
-import JRV.Generated
+import JRV.Lemmas.Server
 
 set_option linter.unusedSimpArgs false
 set_option linter.unusedVariables false
@@ -83,16 +82,6 @@ theorem C08_allowed_iff (c : Char) :
     decide_eq_true_eq]
   omega
 
-/-- `allowedChar` is membership in the complement of the class extracted from `INVALID_MODULE_CHARS`
-    (`[^…]`: negated, with these ranges) — any edit of the regular expression changes `Generated.moduleCharClass`
-    and this theorem (with `C08_gen_moduleCharClass`) no longer checks. -/
-theorem C08_allowed_generated (c : Char) :
-    some (allowedChar c) = Generated.moduleCharClass.map
-      (fun cc => cc.1 && cc.2.any (fun r => decide (r.1 ≤ c.toNat) && decide (c.toNat ≤ r.2))) := by
-  have : Generated.moduleCharClass = some (true, moduleCharRanges) := by decide
-  rw [this, allowedChar_ranges]
-  simp
-
 /-- A name passes the validation iff it is non-empty and made of accepted characters only (full comparison of the
     cleaned name with the original: not a prefix match). -/
 def nameAccepted (s : String) : Bool := s != "" && validName s
@@ -112,13 +101,18 @@ example : nameAccepted "é" = false ∧ nameAccepted "ａ" = false ∧ nameAccep
 
 /-- The class name of a descriptor value as `obj["__jsonclass__"][0]` / `[1]` evaluate: defined when the value is
     a list or tuple of at least two items whose first is a string (or a string of at least two characters, which
-    Python indexes too). -/
+    Python indexes too; or a dict that has keys equal to `0` and `1` — only reachable through a direct call of
+    `jsonclass.load`, never from JSON text). -/
 def descriptorName? : PyVal → Option String
   | .list (.str s :: _ :: _) => some s
   | .tuple (.str s :: _ :: _) => some s
   | .str s => match s.toList with
     | a :: _ :: _ => some (String.singleton a)
     | _ => Option.none
+  -- a dict with keys equal to 0 and 1 (impossible for a dict decoded from JSON, whose keys are strings)
+  | .dict kvs => match lookupKey (.int 0) kvs, lookupKey (.int 1) kvs with
+    | some (.str s), some _ => some s
+    | _, _ => Option.none
   | _ => Option.none
 
 private theorem instantiate_reject (W : World) (cl : List (String × String)) (d : PyVal) (s : String)
@@ -146,6 +140,12 @@ private theorem instantiate_reject (W : World) (cl : List (String × String)) (d
     · rename_i a b rest hl
       simp only [Option.some.injEq] at hd; subst hd
       exact key (.str (String.singleton b)) (by simp [index01, hl, pure, Except.pure])
+    · simp at hd
+  · rename_i kvs
+    split at hd
+    · rename_i s' b h0 h1
+      simp only [Option.some.injEq] at hd; subst hd
+      exact key b (by simp [index01, h0, h1, pure, Except.pure])
     · simp at hd
   · simp at hd
 
@@ -178,7 +178,7 @@ theorem C08_reject_before_import_list (W : World) (cl : List (String × String))
   exact ⟨this.1, this.2.1⟩
 
 /-- The error classes of a malformed descriptor, as CPython raises them. -/
-def malformedClasses : List String := ["IndexError", "TypeError", "KeyError", "TranslationError", "Unmodelled"]
+def malformedClasses : List String := ["IndexError", "TypeError", "KeyError", "TranslationError"]
 
 private theorem index01_err (d : PyVal) (e : PyErr) (h : index01 d = .error e) : e.cls ∈ malformedClasses := by
   unfold index01 at h
@@ -196,6 +196,9 @@ private theorem index01_str (d : PyVal) (s : String) (p : PyVal) (h : index01 d 
   · rename_i hl
     obtain ⟨rfl, rfl⟩ := h
     simp [descriptorName?, hl]
+  · rename_i h0 _ _ h1
+    obtain ⟨rfl, rfl⟩ := h
+    simp [descriptorName?, h0, h1]
 
 private theorem instantiate_malformed (W : World) (cl : List (String × String)) (d : PyVal)
     (hd : descriptorName? d = Option.none) :
@@ -217,7 +220,8 @@ private theorem instantiate_malformed (W : World) (cl : List (String × String))
       | _ => all_goals exact ⟨⟨"TypeError", .str "re.sub on a non-string"⟩, by simp [raise], by simp [malformedClasses]⟩
 
 /-- **Malformed descriptors** — a "__jsonclass__" value of any other shape: not a list (null, bool, number,
-    one-character or empty string, object), a list of length 0 or 1, a list whose first item is not a string
+    one-character or empty string, an object — whose keys, coming from JSON, are strings: `d[0]` raises KeyError),
+    a list of length 0 or 1, a list whose first item is not a string
     (`None`, `0`, `[]`, `{}` are "empty": TranslationError; a number, `true`, a non-empty list or object: TypeError
     from the regular expression) — raise, and no effect is logged: nothing is imported or constructed. -/
 theorem C08_malformed (W : World) (cl : List (String × String)) (kvs : List (PyVal × PyVal)) (d : PyVal)
@@ -226,6 +230,13 @@ theorem C08_malformed (W : World) (cl : List (String × String)) (kvs : List (Py
     (JsonClass.load W cl (.dict kvs)).log = [] ∧ (JsonClass.load W cl (.dict kvs)).arg = .dict kvs := by
   obtain ⟨e, he, hc⟩ := instantiate_malformed W cl d hd
   simp [JsonClass.load, hk, he, hc]
+
+/-- A dict-valued descriptor: from JSON its keys are strings and `d[0]` raises KeyError (malformed, nothing is done);
+    given directly with the keys 0 and 1 it is read like a list — and its class name is validated all the same. -/
+example : descriptorName? (.dict [(.str "0", .str "os.x"), (.str "1", .list [])]) = Option.none ∧
+    descriptorName? (.dict [(.int 0, .str "a b"), (.int 1, .list [])]) = some "a b" ∧
+    descriptorName? (.dict [(.bool false, .str "pkg.Point"), (.float ⟨false, 1, 0⟩, .list [])]) = some "pkg.Point" := by
+  decide +kernel
 
 /-- The two theorems cover every descriptor that is not well-formed with an accepted name. -/
 example : descriptorName? (.list [.str "a b", .list []]) = some "a b" ∧ descriptorName? (.list [.str "x"]) = Option.none ∧
@@ -545,6 +556,12 @@ end safety
 
 /- ---------- the server ---------- -/
 
+/-- What `_marshaled_dispatch` answers when `loads` raised (the statement of `C05_parse`). -/
+private theorem parse_reply (s : Server.Server) :
+    Server.marshaledDispatch s .parseError =
+      (.ok (.doc (Payload.error s.cfg.version .none (.int (-32700)) (.str Server.msgParse) .none)), []) := by
+  rw [Server.marshaled_parseError]; rfl
+
 /-- **Rejected payloads are answered −32700.**  Whenever decoding the request raises — the JSON text is
     malformed, or the class translator rejects the payload for any reason (invalid or empty class name, malformed
     descriptor, unknown module or class, constructor failure, `setattr` failure, at any depth) — the server's reply
@@ -555,11 +572,11 @@ theorem C08_server_32700 (s : Server.Server) (W : World) (v : PyVal) (e : PyErr)
       (.ok (.doc (Payload.error s.cfg.version .none (.int (-32700)) (.str Server.msgParse) .none)), []) := by
   have : (serverParse s.cfg W (some v)).1 = .parseError := by simp [serverParse, h]
   rw [this]
-  exact C05_parse s
+  exact parse_reply s
 
 theorem C08_server_32700_malformed_json (s : Server.Server) (W : World) :
     Server.marshaledDispatch s (serverParse s.cfg W Option.none).1 =
-      (.ok (.doc (Payload.error s.cfg.version .none (.int (-32700)) (.str Server.msgParse) .none)), []) := C05_parse s
+      (.ok (.doc (Payload.error s.cfg.version .none (.int (-32700)) (.str Server.msgParse) .none)), []) := parse_reply s
 
 /-- In particular for the descriptors of `C08_reject_at_depth` / `C08_malformed_at_depth`, with the flag on. -/
 theorem C08_server_rejects_bad_descriptor (s : Server.Server) (W : World) (kvs : List (PyVal × PyVal)) (d : PyVal)
@@ -579,6 +596,18 @@ theorem C08_server_rejects_bad_descriptor (s : Server.Server) (W : World) (kvs :
 
 /- ---------- non-vacuity ---------- -/
 
+/-- A class whose constructor raises something else than TypeError (think `fractions.Fraction(1, 0)`): the
+    exception leaves `load` as it is — not a TranslationError — and the server still answers −32700
+    (`C08_server_32700` is stated for every exception). -/
+private def exWR : World := { env := [("F", { module := "fr", name := "Fraction", kind := .raising "ZeroDivisionError" })] }
+example : (JsonClass.load exWR [] (.list [.dict [(.str "__jsonclass__", .list [.str "fr.Fraction", .list [.int 1, .int 0]])]])).res =
+    .error ⟨"ZeroDivisionError", .none⟩ := by decide +kernel
+example (s : Server.Server) (h : s.cfg.useJsonclass = true) (hc : s.cfg.classes = []) :
+    Server.marshaledDispatch s (serverParse s.cfg exWR
+      (some (.list [.dict [(.str "__jsonclass__", .list [.str "fr.Fraction", .list [.int 1, .int 0]])]]))).1 =
+    (.ok (.doc (Payload.error s.cfg.version .none (.int (-32700)) (.str Server.msgParse) .none)), []) :=
+  C08_server_32700 s exWR _ ⟨"ZeroDivisionError", .none⟩ (by simp [rpcLoad, h, hc]; decide +kernel)
+
 private def exW : World := { env := [("P", { module := "pkg", name := "Point", kind := .bean [("x", .int 0)] })], mods := ["os"] }
 
 /-- A valid descriptor first (imported and constructed), then — inside its sibling — one whose name has a valid
@@ -597,24 +626,5 @@ example : Nested exW [] (.dict [(.str "__jsonclass__", .list [.str "os.system x"
   exact Nested.inList (W := exW) (cl := [])
     [.dict [(.str "__jsonclass__", .list [.str "pkg.Point", .list []]), (.str "x", .int 5)]] []
     [.obj "P" [("x", .int 5)]] (by decide +kernel) h1
-
-/- ---------- facts re-extracted from the source ---------- -/
-
-/-- `INVALID_MODULE_CHARS` is the negated class of exactly the ranges `allowedChar` tests. -/
-theorem C08_gen_moduleCharClass : Generated.moduleCharClass = some (true, moduleCharRanges) := by decide
-
-/-- The empty-name and invalid-character tests precede the statement calling `__import__`. -/
-theorem C08_gen_validationPrecedesImport : Generated.validationPrecedesImport = some JsonClass.validationPrecedesImport := by
-  decide
-
-/-- Both calls of the class translator in jsonrpc.py (`dump`, `load`) are inside `if config.use_jsonclass:`. -/
-theorem C08_gen_useJsonclassGates : Generated.useJsonclassGates = some JsonClass.useJsonclassGates := by decide
-
-/-- `jsonrpc.loads` goes through `load` (and so through its gate). -/
-theorem C08_gen_loadsCallsLoad : Generated.loadsCallsLoad = some true := by decide
-
-/-- `_marshaled_dispatch` calls `loads` inside `try/except Exception` and builds `Fault(-32700, …)` there. -/
-theorem C08_gen_loadsGuarded : Generated.loadsGuarded = some true ∧
-    (Generated.faultSites.map fun l => l.contains ("_marshaled_dispatch", Server.codeParse)) = some true := by decide
 
 end JRV.Props
